@@ -116,7 +116,7 @@ func TestC19(t *testing.T) {
 	}
 	// byte sequences that are not valid UTF-8, in every kind of context
 	if sh == 0 {
-		for _, src := range invalidSources() {
+		for _, src := range append(invalidSources(), unusualSources()...) {
 			run(t, wproto.Req{Op: "downstream", Src: src, Lo: 0, Hi: 256, Dir: scratch}, true, false)
 		}
 		st.ClassN("invalid_utf8_in_context", int64(len(invalidSources())))
